@@ -1,7 +1,7 @@
 SPECIFICATION TraceSpec
 CONSTANTS
   Agents = {"a1", "a2"}
-  Ids = {1, 2, 3}
+  Ids = {0, 1, 2, 3}
   SendLogs = TRUE
   MaxOps = 1000000
 INVARIANTS OnlyOutstandingHaveEffect
